@@ -95,7 +95,7 @@ CHECKS["C13"] = dict(
     design="5 C13", technique="Coq proof (sortedness invariant + exactness of the range scan) + differential correspondence + fresh-scan oracle",
     note=WORLD_NOTE)
 CHECKS["C16"] = dict(
-    text="Theorems (Props/C16.v, 46) for reachable states: each of the ten set methods yields the Python set result (KeyError exactly when the built-in raises); every module-list method yields the list "
+    text="Theorems (Props/C16.v, 47) for reachable states: each of the ten set methods yields the Python set result (KeyError exactly when the built-in raises); every module-list method yields the list "
          "result on the list from which a moved module was first removed (ValueError/IndexError exactly when the built-in raises); the expression map refines dict with iteration by offset; moved-not-duplicated; "
          "a failed operation leaves the state (and the invariant) unchanged; the read-only sequence interface (index with bounds, count, in, [i], [a:b:c], reversed) of the module list is "
          "Python's (Model/SeqOps.v: first position inside the clamped bounds, IndexError exactly outside [-len, len), slice positions s, s+c, ... as slice.indices gives them); the non-mutating set operators and comparisons inherited from collections.abc.Set (Model/SetAlg.v) are the mathematical ones on duplicate-free member lists. Correspondence + lock-step shadows: every call also made on built-in list/set/dict, incl. mixins, operators with plain sets on either "
